@@ -293,12 +293,22 @@ def _refresh_order(facts):
 
     def has_param(b, suffix):
         return any(b.locals[i]["ty"]["s"].replace("&mut ", "").lstrip("&").endswith(suffix) for i in range(1, b.arg_count + 1))
-    cands = [b for b in facts.bodies.values() if b.kind == "fn" and "::tests::" not in b.name and has_param(b, "::Planes")
-             and has_param(b, "::LegendHeaders") and ("stdout",) in eff.of(b.name)]
-    names = {b.name for b in cands}
-    top = [b for b in cands if not any(callee_name(t) == b.name for c in cands if c is not b for _, t in c.calls())]
-    if len(top) != 1:
-        raise Broken("C14 anchor: %d refresh functions (handed the table and the header lines, printing)" % len(top))
+
+    # which functions (transitively) read the header lines: the ones that compose a refresh; a function that is handed the table
+    # and does not read them produces / prints the rows
+    import json as _json
+    from ..cfg import call_graph, reachable_bodies
+    direct_hdr = set()
+    for b in facts.bodies.values():
+        if b.kind == "promoted" or "::tests::" in b.name:
+            continue
+        txt = _json.dumps(b.blocks)
+        if any(('"name": "%s", "adt": "%s"' % (fl, hdr_adt[0])) in txt for fl in roles):
+            direct_hdr.add(b.name)
+    cg = call_graph(facts)
+    reads_hdr = {n for n in cg if n in facts.bodies and direct_hdr & reachable_bodies(facts, [n], cg)}
+    cands = [b for b in facts.bodies.values() if b.kind in ("fn", "assoc") and "::tests::" not in b.name and has_param(b, "::Planes")
+             and b.name in reads_hdr and ("stdout",) in eff.of(b.name)]
     count = [0]
 
     def toks_expr(e, depth):
@@ -319,7 +329,7 @@ def _refresh_order(facts):
         if e and e[0] == "call" and isinstance(e[1], str) and e[1] in facts.bodies:
             cb = facts.bodies[e[1]]
             if has_param(cb, "::Planes"):
-                if has_param(cb, "::LegendHeaders"):
+                if cb.name in reads_hdr:
                     # a helper that composes the whole screen: its return expression with our arguments
                     from ..mirq import _subst_args
                     return toks_expr(_subst_args(expr_place(DefUse(cb), {"local": 0, "proj": []}), e[2]), depth + 1)
@@ -350,7 +360,7 @@ def _refresh_order(facts):
                 sites.append((bi, toks_expr(expr(du, t["args"][0]), 0)))
             elif tgt in facts.bodies and ("stdout",) in eff.of(tgt):
                 cb = facts.bodies[tgt]
-                if has_param(cb, "::Planes") and not has_param(cb, "::LegendHeaders"):
+                if has_param(cb, "::Planes") and cb.name not in reads_hdr:
                     sites.append((bi, ["rows"]))
                 else:
                     sites.append((bi, toks_body(cb, depth + 1)))
@@ -364,8 +374,18 @@ def _refresh_order(facts):
             if not cfg.dominates(tok_sites[i], tok_sites[i + 1]):
                 out.append("unordered")
         return out
-    order = toks_body(top[0], 0)
-    return order, count[0], top[0]
+    # the refresh function: the innermost candidate whose own output contains both rows and header lines
+    kept = []
+    for b in cands:
+        count[0] = 0
+        tk = toks_body(b, 0)
+        if "rows" in tk and ("header" in tk or "separator" in tk):
+            kept.append((b, tk, count[0]))
+    knames = {b.name for b, _, _ in kept}
+    top = [(b, tk, n) for b, tk, n in kept if not (knames - {b.name}) & reachable_bodies(facts, [b.name], cg)]
+    if len(top) != 1:
+        raise Broken("C14 anchor: %d refresh functions (handed the table, printing rows and header lines)" % len(top))
+    return top[0][1], top[0][2], top[0][0]
 
 
 def _dedupe(xs):
